@@ -116,9 +116,7 @@ def run_skeleton(item):
                     eng.assume((value + 0x40 <= 0x100000).t)
             if isinstance(value, int):
                 return "0x%X" % value, value
-            lit = "0x%08X" % (MAGIC_BASE + len(eng.magic) + 1)
-            eng.magic[lit.lower()] = value
-            return lit, value
+            return eng.new_magic(value), value
 
         def alone(addr_text, text):
             a1 = RecAsm()
@@ -169,7 +167,7 @@ def run_skeleton(item):
                 ckey = f"{name}|{key}"
                 payload = {"property": "C10", "kind": "layout", "key": ckey, "skeleton": [list(s) for s in skel], "numerals": vals, "obligation": name, "source": v["src"]}
                 res["cex"].append({"key": ckey, "summary": f"{name} numerals={vals}", "payload": payload})
-                break
+                # no break: the obligations of a path are independent of each other, and a known finding must not hide a new one
             else:
                 res["unknown"] += 1
     # nothing left behind in the module-level reverse-opcode cache
